@@ -41,8 +41,6 @@ Proof.
   - inversion H; subst. rewrite !N.eqb_refl. reflexivity.
 Qed.
 
-Lemma qkey_eqb_spec a b : qkey_eqb a b = true <-> a = b.
-Proof. apply list_eqb_spec. apply ikey_eqb_spec. Qed.
 
 (* ------------------------------------------------------------------------------------------ *)
 (* Association lists                                                                           *)
@@ -98,7 +96,7 @@ End AssocLemmas.
 
 Definition iget := aget (V := ient) ikey_eqb.
 Definition mget := aget (V := ment) mkey_eqb.
-Definition qget := aget (V := qent) qkey_eqb.
+Definition qget := aget (V := qent) N.eqb.
 
 (* ------------------------------------------------------------------------------------------ *)
 (* The marker keys cover the specification of [touches]                                        *)
@@ -182,7 +180,8 @@ Record cfg_facts (c : cfg) : Prop := {
   cf_qttl : 0 < c_qttl c;
   cf_ittl : 0 < c_ittl c;
   cf_full : c_ittl c <= c_full c;
-  cf_page : (1 <= c_page c)%nat
+  cf_page : (1 <= c_page c)%nat;
+  cf_subinv : c_subinv c = true
 }.
 
 Lemma cfg_ok_facts c : cfg_ok c = true -> cfg_facts c.
@@ -197,6 +196,7 @@ Proof.
   - apply N.ltb_lt. assumption.
   - apply N.leb_le. assumption.
   - apply Nat.leb_le. assumption.
+  - assumption.
 Qed.
 
 Lemma jext_zero ttl j : jext ttl 0 j = 0.
@@ -406,11 +406,8 @@ Proof.
     { intros s1 ->. destruct trig; [|repeat split; reflexivity].
       destruct (spawn_same s) as [A [B [_ [_ [C [D _]]]]]]. repeat split; assumption. }
     destruct (if trig then spawn s else (s, false)) as [s1 spawned] eqn:E1. simpl in Hs1.
-    destruct (Hsame s1 eq_refl) as [A [B [C D]]].
-    match goal with |- context [match ?h with Some _ => _ | None => _ end] => destruct h as [e|] end.
-    + simpl. exact Hs1.
-    + destruct (iter_reads c (s_now s) (length (s_db s)) (s_mk s) st jis (s_ic s) keys) as [ic' res]. simpl.
-      rewrite <- A, <- B, <- C, <- D. apply inv0_caches. exact Hs1.
+    destruct (Hsame s1 eq_refl) as [A [B [C D]]]. cbn [fst].
+    rewrite <- A, <- B, <- C, <- D. apply inv0_caches. exact Hs1.
   - (* InvStart *)
     destruct (spawn s) as [s1 b] eqn:E. simpl. change s1 with (fst (s1, b)). rewrite <- E. apply inv0_spawn; exact H.
   - (* InvRead *)
@@ -502,6 +499,118 @@ Proof.
   injection E as <- <-. exists h0. exact Hin.
 Qed.
 
+Lemma invalid_at_mono mk mk' now ts k :
+  mk_le mk mk' -> invalid_at mk now ts k = true -> invalid_at mk' now ts k = true.
+Proof.
+  intros Hle H. unfold invalid_at in *. apply existsb_exists in H as [m [Hin H]].
+  destruct (aget mkey_eqb m mk) as [e|] eqn:G; [|discriminate].
+  apply andb_true_iff in H as [H1 H2]. apply N.ltb_lt in H1. apply N.ltb_lt in H2.
+  destruct (Hle m e G) as [e' [G' [A B]]]. apply existsb_exists. exists m. split; [exact Hin|].
+  unfold mget in G'. rewrite G'. apply andb_true_iff. split; apply N.ltb_lt; lia.
+Qed.
+
+
+(* ------------------------------------------------------------------------------------------ *)
+(* Resolution of a forest of sub-problems, relative to a BASE state (ic0, qc0, mk0, T0) that is
+   at most as invalidated as the state the resolution runs in                                   *)
+
+Section Resolve.
+  Variables (c : cfg) (now : N) (n : nat) (mk : list (mkey * ment)) (store : bool) (jq : N) (jis : list N).
+  Variables (ic0 : list (ikey * ient)) (qc0 : list (N * qent)) (mk0 : list (mkey * ment)) (T0 : N).
+  Hypothesis Hmk : mk_le mk0 mk.
+
+  Definition read_ok (k : ikey) (n' : nat) : Prop :=
+    n' = n \/ (c_ion c = true /\ exists e, usable_i mk0 now ic0 k e /\ n' = ie_snap e).
+
+  Definition pair_ok (k : ikey) (n' : nat) : Prop :=
+    read_ok k n' \/
+    (c_qon c = true /\ exists id e, qget id qc0 = Some e /\ now < qe_exp e /\
+       (T0 < qe_lm e \/ c_subinv c = false) /\ In (k, n') (qe_src e)).
+
+  Definition newq (P : ikey -> nat -> Prop) (e : qent) : Prop :=
+    c_qon c = true /\ qe_lm e = now /\ qe_exp e = now + c_qttl c + jext (c_qttl c) (c_jit c) jq /\
+    forall k n', In (k, n') (qe_src e) -> P k n'.
+
+  Definition st_ok (b : bool) (st : rstate) : Prop :=
+    (forall k e, iget k (fst st) = Some e -> iget k ic0 = Some e \/ exists j, e = fresh_ent c now n j) /\
+    (forall id e, qget id (snd st) = Some e ->
+       qget id qc0 = Some e \/ newq (if b then read_ok else pair_ok) e).
+
+  Lemma reads_ok ic ic1 res keys :
+    (forall k e, iget k ic = Some e -> iget k ic0 = Some e \/ exists j, e = fresh_ent c now n j) ->
+    iter_reads c now n mk store jis ic keys = (ic1, res) ->
+    (forall k e, iget k ic1 = Some e -> iget k ic0 = Some e \/ exists j, e = fresh_ent c now n j) /\
+    (forall k n', In (k, n') (res_src res) -> read_ok k n').
+  Proof.
+    intros Hic R. apply iter_reads_cases in R as [R1 [R2 _]]. split.
+    - intros k e He. apply R1 in He as [He|[j ->]]; [apply Hic; exact He | right; exists j; reflexivity].
+    - intros k n' Hin. apply res_src_in in Hin as [h Hin].
+      apply R2 in Hin as [->|[Ion [e [[G [L V]] ->]]]]; [left; reflexivity|].
+      apply Hic in G as [G|[j ->]]; [|left; reflexivity].
+      right. split; [exact Ion|]. exists e. split; [|reflexivity]. repeat split; try assumption.
+      destruct (invalid_at mk0 now (ie_lm e) k) eqn:I; [|reflexivity].
+      rewrite (invalid_at_mono _ _ _ _ _ Hmk I) in V. discriminate.
+  Qed.
+
+  Lemma resolve_ok f : forall b tinv st st' out,
+    st_ok b st -> (b = true -> forest_flat f = true) ->
+    (T0 <= tinv \/ (c_subinv c = false /\ tinv = 0)) ->
+    resolve c now n mk store jq jis tinv st f = (st', out) ->
+    st_ok b st' /\ (forall k n', In (k, n') (fst (fst out)) -> pair_ok k n').
+  Proof.
+    induction f as [|id keys ch IHch sib IHsib]; intros b tinv st st' out Hst Hflat Ht R.
+    - simpl in R. injection R as <- <-. split; [exact Hst | intros k n' []].
+    - simpl in R.
+      assert (Hfl : b = true -> ch = QNil /\ forest_flat sib = true).
+      { intro Hb. specialize (Hflat Hb). simpl in Hflat. apply andb_true_iff in Hflat as [A B].
+        split; [destruct ch; [reflexivity | discriminate] | exact B]. }
+      (* the node itself *)
+      set (r1 := match qlookup c now tinv (snd st) id with
+                 | Some e => (st, (qe_src e, [true], []))
+                 | None => _ end) in R.
+      assert (H1 : st_ok b (fst r1) /\ (forall k n', In (k, n') (fst (fst (snd r1))) -> pair_ok k n')).
+      { subst r1. destruct (qlookup c now tinv (snd st) id) as [e|] eqn:Q.
+        - cbn [fst snd]. split; [exact Hst|]. intros k n' Hin.
+          unfold qlookup in Q. destruct (c_qon c) eqn:Qon; [|discriminate].
+          destruct (aget N.eqb id (snd st)) as [e'|] eqn:G; [|discriminate].
+          destruct ((now <? qe_exp e') && (tinv <? qe_lm e')) eqn:V; [|discriminate]. injection Q as ->.
+          apply andb_true_iff in V as [V1 V2]. apply N.ltb_lt in V1. apply N.ltb_lt in V2.
+          destruct (proj2 Hst id e G) as [G0|[_ [_ [_ Hp]]]].
+          + right. split; [exact Qon|]. exists id, e. repeat split; try assumption.
+            destruct Ht as [Ht|[Ht _]]; [left; lia | right; exact Ht].
+          + specialize (Hp k n' Hin). destruct b; [left; exact Hp | exact Hp].
+        - destruct (iter_reads c now n mk store jis (fst st) keys) as [ic1 res] eqn:Rd.
+          destruct (reads_ok _ _ _ _ (proj1 Hst) Rd) as [Hic1 Hres].
+          cbn [fst snd].
+          destruct (resolve c now n mk store jq jis (if c_subinv c then tinv else 0) (ic1, snd st) ch)
+            as [[ic2 qc2] [[a2 qh2] ih2]] eqn:Rc.
+          assert (Hstc : st_ok b (ic1, snd st)) by (split; [exact Hic1 | exact (proj2 Hst)]).
+          assert (Htc : T0 <= (if c_subinv c then tinv else 0) \/ (c_subinv c = false /\ (if c_subinv c then tinv else 0) = 0)).
+          { destruct (c_subinv c); [|right; split; reflexivity].
+            destruct Ht as [Ht|[X _]]; [left; exact Ht | discriminate]. }
+          assert (Hflc : b = true -> forest_flat ch = true).
+          { intro Hb. destruct (Hfl Hb) as [-> _]. reflexivity. }
+          destruct (IHch b _ _ _ _ Hstc Hflc Htc Rc) as [[Hic2 Hqc2] Ha2]. cbn [fst snd] in *.
+          assert (Ha2' : b = true -> a2 = []).
+          { intro Hb. destruct (Hfl Hb) as [-> _]. simpl in Rc. injection Rc as _ _ <- _ _. reflexivity. }
+          assert (Hall : forall k n', In (k, n') (res_src res ++ a2) -> pair_ok k n').
+          { intros k n' Hin. apply in_app_or in Hin as [Hin|Hin]; [left; apply Hres; exact Hin | apply Ha2; exact Hin]. }
+          split; [|exact Hall]. split; [exact Hic2|].
+          intros id' e He. destruct (c_qon c) eqn:Qon; [|apply Hqc2; exact He].
+          unfold qget in He. apply (aget_aset_cases N.eqb N.eqb_eq) in He as [[-> ->]|[_ He]]; [|apply Hqc2; exact He].
+          right. split; [exact Qon|]. split; [reflexivity|]. split; [reflexivity|]. cbn [qe_src].
+          intros k n' Hin. destruct b.
+          + rewrite (Ha2' eq_refl), app_nil_r in Hin. apply Hres; exact Hin.
+          + apply Hall; exact Hin. }
+      destruct H1 as [Hst1 Ha1].
+      destruct (resolve c now n mk store jq jis tinv (fst r1) sib) as [st2 [[a3 qh3] ih3]] eqn:Rs.
+      cbn [fst snd] in R. injection R as <- <-.
+      assert (Hfls : b = true -> forest_flat sib = true) by (intro Hb; apply (Hfl Hb)).
+      destruct (IHsib b _ _ _ _ Hst1 Hfls Ht Rs) as [Hst2 Ha3]. cbn [fst snd] in *.
+      split; [exact Hst2|]. intros k n' Hin. apply in_app_or in Hin as [Hin|Hin]; [apply Ha1 | apply Ha3]; exact Hin.
+  Qed.
+End Resolve.
+
 (* ------------------------------------------------------------------------------------------ *)
 (* The invariant behind staleness_bounded (needs cfg_ok)                                       *)
 
@@ -518,10 +627,11 @@ Record Inv1 (c : cfg) (s : state) : Prop := {
   i1_ic : forall k e, iget k (s_ic s) = Some e ->
           ie_lm e <= s_now s /\ ie_exp e = ie_lm e + c_ittl c /\
           forall j ch, nth_error (s_db s) j = Some ch -> (ie_snap e <= j)%nat -> ie_lm e < ch_ts ch;
-  i1_qc : forall ks e, qget ks (s_qc s) = Some e ->
+  i1_qc : forall id e, qget id (s_qc s) = Some e ->
           qe_lm e <= s_now s /\ qe_exp e = qe_lm e + c_qttl c /\
           (c_ion c = false -> forall k n, In (k, n) (qe_src e) ->
-             forall j ch, nth_error (s_db s) j = Some ch -> (n <= j)%nat -> qe_lm e < ch_ts ch);
+             forall j ch, nth_error (s_db s) j = Some ch -> (n <= j)%nat ->
+             touches (ch_tup ch) k = true -> qe_lm e < ch_ts ch);
   i1_cached : forall x, cached_of s = Some x -> x <= s_now s;
   i1_run : forall r, s_run s = Some (RRead r) ->
            (s_done s <= length (r_seen r))%nat /\
@@ -537,8 +647,8 @@ Record Inv1 (c : cfg) (s : state) : Prop := {
           exists m me, In m (MStore :: markers_of_key k) /\ mget m (s_mk s) = Some me /\
                        ie_lm e < me_lm me /\ ie_exp e <= me_exp me;
   i1_Qc : c_ion c = false ->
-          forall i ch ks e k n, (i < s_done s)%nat -> nth_error (s_db s) i = Some ch ->
-          qget ks (s_qc s) = Some e -> In (k, n) (qe_src e) -> touches (ch_tup ch) k = true ->
+          forall i ch id e k n, (i < s_done s)%nat -> nth_error (s_db s) i = Some ch ->
+          qget id (s_qc s) = Some e -> In (k, n) (qe_src e) -> touches (ch_tup ch) k = true ->
           (n <= i)%nat -> s_now s < qe_exp e ->
           exists cl, s_cl s = Some cl /\ qe_lm e <= cl_lm cl /\ qe_exp e <= cl_exp cl
 }.
@@ -571,7 +681,7 @@ Proof.
     intros j ch Hn Hj. apply nth_app_cases in Hn as [[_ Hn]|[_ Hin]]; [apply (C j); assumption|].
     rewrite (Hnew ch Hin). lia.
   - intros ks e He. destruct (QC ks e He) as [A [B C]]. repeat split; try assumption; [lia|].
-    intros Ion k n Hin j ch Hn Hj. apply nth_app_cases in Hn as [[_ Hn]|[_ Hin']]; [apply (C Ion k n Hin j); assumption|].
+    intros Ion k n Hin j ch Hn Hj Ht. apply nth_app_cases in Hn as [[_ Hn]|[_ Hin']]; [apply (C Ion k n Hin j); assumption|].
     rewrite (Hnew ch Hin'). lia.
   - intros x Hx. unfold cached_of in *. simpl in Hx. apply CA in Hx. lia.
   - intros r R. destruct (RU r R) as [A B]. split; [exact A|].
@@ -636,10 +746,12 @@ Lemma inv1_caches c s ic' qc' :
   cfg_facts c -> Inv1 c s ->
   (forall k e, iget k ic' = Some e ->
      iget k (s_ic s) = Some e \/ exists j, e = fresh_ent c (s_now s) (length (s_db s)) j) ->
-  (forall ks e, qget ks qc' = Some e ->
-     qget ks (s_qc s) = Some e \/
+  (forall id e, qget id qc' = Some e ->
+     qget id (s_qc s) = Some e \/
      (exists jq, qe_lm e = s_now s /\ qe_exp e = s_now s + c_qttl c + jext (c_qttl c) (c_jit c) jq) /\
-     (c_ion c = false -> forall k n, In (k, n) (qe_src e) -> n = length (s_db s))) ->
+     (* a new entry reflects every change that touches one of its reads *)
+     (c_ion c = false -> forall k n, In (k, n) (qe_src e) ->
+        forall j ch, nth_error (s_db s) j = Some ch -> (n <= j)%nat -> touches (ch_tup ch) k = true -> False)) ->
   Inv1 c (mkSt (s_now s) (s_db s) ic' qc' (s_cl s) (s_mk s) (s_run s) (s_done s)).
 Proof.
   intros F [P D IC QC CA RU J I Q] Hic Hqc. pose proof (cf_jit c F) as Jit.
@@ -647,22 +759,38 @@ Proof.
   - intros k e He. apply Hic in He as [He|[j ->]]; [apply (IC k e He)|].
     unfold fresh_ent; simpl. rewrite Jit, jext_zero. repeat split; try lia.
     intros j0 ch Hn Hj. assert (nth_error (s_db s) j0 = None) by (apply nth_error_None; exact Hj). congruence.
-  - intros ks e He. apply Hqc in He as [He|[[jq [A B]] C]]; [apply (QC ks e He)|].
+  - intros id e He. apply Hqc in He as [He|[[jq [A B]] C]]; [apply (QC id e He)|].
     rewrite Jit, jext_zero in B. repeat split; try lia.
-    intros Ion k n Hin j ch Hn Hj. rewrite (C Ion k n Hin) in Hj.
-    assert (nth_error (s_db s) j = None) by (apply nth_error_None; exact Hj). congruence.
+    intros Ion k n Hin j ch Hn Hj Ht. exfalso. apply (C Ion k n Hin j ch Hn Hj Ht).
   - intros i ch k e Hi Hn He Ht Hs Hl. apply Hic in He as [He|[j ->]]; [apply (I i ch k e); assumption|].
     simpl in Hs. lia.
-  - intros Ion i ch ks e k n Hi Hn He Hin Ht Hs Hl. apply Hqc in He as [He|[_ C]].
-    + apply (Q Ion i ch ks e k n); assumption.
-    + rewrite (C Ion k n Hin) in Hs. lia.
+  - intros Ion i ch id e k n Hi Hn He Hin Ht Hs Hl. apply Hqc in He as [He|[_ C]].
+    + apply (Q Ion i ch id e k n); assumption.
+    + exfalso. apply (C Ion k n Hin i ch Hn Hs Ht).
 Qed.
 
-Lemma inv1_request c s keys st jq jis :
-  cfg_facts c -> Inv0 c s -> Inv1 c s -> Inv1 c (fst (step c s (Request keys st jq jis))).
+(* a usable query entry cannot miss a change that a completed run has covered *)
+Lemma usable_q_covers c s id e k n i ch :
+  Inv1 c s -> c_ion c = false -> qget id (s_qc s) = Some e -> s_now s < qe_exp e ->
+  fst (determine c s) < qe_lm e ->
+  In (k, n) (qe_src e) -> (i < s_done s)%nat -> nth_error (s_db s) i = Some ch ->
+  touches (ch_tup ch) k = true -> (n <= i)%nat -> False.
 Proof.
-  intros F I0 I1. simpl.
-  destruct (determine c s) as [tinv trig].
+  intros I1 Ion G L T Hin Hi Hn Ht Hs.
+  destruct (i1_Qc c s I1 Ion i ch id e k n Hi Hn G Hin Ht Hs L) as [cl [Hcl [A B]]].
+  unfold determine, cl_live in T. rewrite Hcl in T.
+  assert (X : s_now s <? cl_exp cl = true) by (apply N.ltb_lt; lia). rewrite X in T. simpl in T. lia.
+Qed.
+
+Lemma mk_le_refl_ mk : mk_le mk mk.
+Proof. apply mk_le_refl. Qed.
+
+Lemma inv1_request c s f st jq jis :
+  cfg_facts c -> Inv0 c s -> Inv1 c s -> req_ok c s f = true ->
+  Inv1 c (fst (step c s (Request f st jq jis))).
+Proof.
+  intros F I0 I1 Hok. simpl.
+  destruct (determine c s) as [tinv trig] eqn:Det.
   assert (Hs1 : Inv1 c (fst (if trig then spawn s else (s, false)))).
   { destruct trig; [apply inv1_spawn; assumption | exact I1]. }
   assert (Hsame : forall s1, s1 = fst (if trig then spawn s else (s, false)) ->
@@ -670,18 +798,32 @@ Proof.
             s_cl s1 = s_cl s /\ s_mk s1 = s_mk s /\ s_done s1 = s_done s).
   { intros s1 ->. destruct trig; [apply spawn_same | repeat split; reflexivity]. }
   destruct (if trig then spawn s else (s, false)) as [s1 spawned] eqn:E1. simpl in Hs1.
-  destruct (Hsame s1 eq_refl) as [A [B [C [D [E [G H]]]]]].
-  match goal with |- context [match ?h with Some _ => _ | None => _ end] => destruct h as [e|] end.
-  - simpl. exact Hs1.
-  - destruct (iter_reads c (s_now s) (length (s_db s)) (s_mk s) st jis (s_ic s) keys) as [ic' res] eqn:R. simpl.
-    apply iter_reads_cases in R as [R1 [R2 R3]].
-    rewrite <- A, <- B, <- E, <- G, <- H.
-    apply inv1_caches; [exact F | exact Hs1 | |].
-    + intros k e0 He. rewrite A, B, C. apply R1; exact He.
-    + intros ks e0 He. rewrite D. destruct (c_qon c) eqn:Qon; [|left; exact He].
-      unfold qget in He. apply (aget_aset_cases qkey_eqb qkey_eqb_spec) in He as [[-> ->]|[_ He]]; [|left; exact He].
-      right. simpl. split; [exists jq; rewrite A; split; reflexivity|].
-      intros Ion k n Hin. apply res_src_in in Hin as [h Hin]. apply R2 in Hin as [->|[Ion' _]]; [rewrite B; reflexivity | congruence].
+  destruct (Hsame s1 eq_refl) as [A [B [C [D [E [G H]]]]]]. cbn [fst].
+  destruct (resolve c (s_now s) (length (s_db s)) (s_mk s) st jq jis tinv (s_ic s, s_qc s) f) as [st' out] eqn:R.
+  cbn [fst snd].
+  set (b := forest_flat f).
+  assert (Hst0 : st_ok c (s_now s) (length (s_db s)) jq (s_ic s) (s_qc s) (s_mk s) tinv b (s_ic s, s_qc s)).
+  { split; intros ? e He; left; exact He. }
+  destruct (resolve_ok c (s_now s) (length (s_db s)) (s_mk s) st jq jis (s_ic s) (s_qc s) (s_mk s) tinv
+              (mk_le_refl (s_mk s)) f b tinv _ _ _ Hst0 (fun X => X) (or_introl (N.le_refl _)) R) as [[Hic Hqc] _].
+  rewrite <- A, <- B, <- E, <- G, <- H.
+  apply inv1_caches; [exact F | exact Hs1 | |].
+  - intros k e0 He. rewrite A, B, C. apply Hic; exact He.
+  - intros id e0 He. rewrite D. apply Hqc in He as [He|[Qon [Hlm [Hexp Hp]]]]; [left; exact He|].
+    right. split; [exists jq; rewrite A; split; assumption|].
+    intros Ion k n Hin j ch Hn Hj Ht. rewrite B in Hn.
+    assert (Hread : read_ok c (s_now s) (length (s_db s)) (s_ic s) (s_mk s) k n -> False).
+    { intros [->|[Ion' _]]; [|congruence].
+      assert (nth_error (s_db s) j = None) by (apply nth_error_None; exact Hj). congruence. }
+    specialize (Hp k n Hin). destruct b eqn:Eb; [exact (Hread Hp)|].
+    destruct Hp as [Hp|[_ [id0 [e1 [G1 [L1 [T1 Hin1]]]]]]]; [exact (Hread Hp)|].
+    (* the pair comes from an older usable entry: only possible in a covered state *)
+    unfold req_ok in Hok. rewrite Qon in Hok. fold b in Hok. rewrite Eb in Hok. simpl in Hok.
+    apply Nat.eqb_eq in Hok.
+    destruct T1 as [T1|T1]; [|rewrite (cf_subinv c F) in T1; discriminate].
+    assert (Hj' : (j < s_done s)%nat) by (rewrite Hok; apply nth_error_Some; congruence).
+    apply (usable_q_covers c s id0 e1 k n j ch I1 Ion G1 L1); try assumption.
+    rewrite Det. exact T1.
 Qed.
 
 (* ------------------------------------------------------------------------------------------ *)
@@ -924,9 +1066,12 @@ Proof.
            ++ simpl. lia.
 Qed.
 
-Lemma inv1_step c s o : cfg_facts c -> Inv0 c s -> Inv1 c s -> Inv1 c (fst (step c s o)).
+Definition op_ok (c : cfg) (s : state) (o : op) : bool :=
+  match o with Request f _ _ _ => req_ok c s f | _ => true end.
+
+Lemma inv1_step c s o : cfg_facts c -> Inv0 c s -> Inv1 c s -> op_ok c s o = true -> Inv1 c (fst (step c s o)).
 Proof.
-  intros F I0 I1. destruct o as [ws|keys st jq jis| | | |d].
+  intros F I0 I1 Hop. destruct o as [ws|f st jq jis| | | |d].
   - apply inv1_write; assumption.
   - apply inv1_request; assumption.
   - simpl. destruct (spawn s) as [s1 b] eqn:E. simpl. change s1 with (fst (s1, b)). rewrite <- E.
@@ -938,11 +1083,21 @@ Proof.
   - apply inv1_tick; assumption.
 Qed.
 
-Lemma inv_run c h : cfg_facts c -> forall s, Inv0 c s -> Inv1 c s ->
+Lemma hist_ok_cons c o h s : hist_ok c (o :: h) s = op_ok c s o && hist_ok c h (fst (step c s o)).
+Proof. destruct o; reflexivity. Qed.
+
+Lemma inv_run c h : cfg_facts c -> forall s, Inv0 c s -> Inv1 c s -> hist_ok c h s = true ->
   Inv0 c (run_ops c h s) /\ Inv1 c (run_ops c h s).
 Proof.
-  intro F. induction h as [|o h IH]; intros s I0 I1; simpl; [split; assumption|].
-  apply IH; [apply inv0_step; exact I0 | apply inv1_step; assumption].
+  intro F. induction h as [|o h IH]; intros s I0 I1 Hh; [split; assumption|].
+  rewrite hist_ok_cons in Hh. apply andb_true_iff in Hh as [Ho Hh]. simpl.
+  apply IH; [apply inv0_step; exact I0 | apply inv1_step; assumption | exact Hh].
+Qed.
+
+Lemma hist_ok_app c h1 h2 s : hist_ok c (h1 ++ h2) s = hist_ok c h1 s && hist_ok c h2 (run_ops c h1 s).
+Proof.
+  revert s. induction h1 as [|o h1 IH]; intro s; [reflexivity|].
+  rewrite <- app_comm_cons, !hist_ok_cons, IH. simpl. rewrite andb_assoc. reflexivity.
 Qed.
 
 Lemma inv0_run c h : forall s, Inv0 c s -> Inv0 c (run_ops c h s).
@@ -959,49 +1114,38 @@ Proof.
   unfold mget in Hg. rewrite Hg. apply andb_true_iff. split; apply N.ltb_lt; assumption.
 Qed.
 
-Lemma answer_fresh c s keys st jq jis i :
+Lemma answer_fresh c s f st jq jis i :
   cfg_facts c -> Inv1 c s -> (i < s_done s)%nat ->
-  fresh_at (s_db s) i (out_src (snd (step c s (Request keys st jq jis)))).
+  fresh_at (s_db s) i (out_src (snd (step c s (Request f st jq jis)))).
 Proof.
   intros F I1 Hi ch Hn k n Hin Ht. simpl in Hin.
   destruct (determine c s) as [tinv trig] eqn:Det.
   destruct (if trig then spawn s else (s, false)) as [s1 spawned].
+  destruct (resolve c (s_now s) (length (s_db s)) (s_mk s) st jq jis tinv (s_ic s, s_qc s) f) as [st' out] eqn:R.
+  cbn [fst snd out_src] in Hin.
+  assert (Hst0 : st_ok c (s_now s) (length (s_db s)) jq (s_ic s) (s_qc s) (s_mk s) tinv false (s_ic s, s_qc s)).
+  { split; intros ? e He; left; exact He. }
+  destruct (resolve_ok c (s_now s) (length (s_db s)) (s_mk s) st jq jis (s_ic s) (s_qc s) (s_mk s) tinv
+              (mk_le_refl (s_mk s)) f false tinv _ _ _ Hst0 (fun X => ltac:(discriminate X)) (or_introl (N.le_refl _)) R) as [_ Hp].
   destruct (Nat.lt_ge_cases i n) as [Hlt|Hge]; [exact Hlt|exfalso].
-  destruct (c_qon c) eqn:Qon.
-  - (* query cache on, hence iterator cache off *)
-    assert (Ion : c_ion c = false).
+  destruct (Hp k n Hin) as [[->|[Ion [e [[G [L V]] ->]]]]|[Qon [id [e [G [L [T Hin']]]]]]].
+  - pose proof (i1_done c s I1). lia.
+  - destruct (i1_Ic c s I1 i ch k e Hi Hn G Ht Hge L) as [m [me [A [B [C D]]]]].
+    rewrite (invalid_at_marker (s_mk s) (s_now s) (ie_lm e) k m me A B) in V; [discriminate | lia | exact C].
+  - assert (Ion : c_ion c = false).
     { pose proof (cf_single c F) as X. rewrite Qon in X. simpl in X. exact X. }
-    destruct (aget qkey_eqb keys (s_qc s)) as [e|] eqn:G.
-    + destruct ((s_now s <? qe_exp e) && (tinv <? qe_lm e)) eqn:V.
-      * simpl in Hin. apply andb_true_iff in V as [V1 V2]. apply N.ltb_lt in V1. apply N.ltb_lt in V2.
-        destruct (i1_Qc c s I1 Ion i ch keys e k n Hi Hn G Hin Ht Hge V1) as [cl [Hcl [A B]]].
-        unfold determine, cl_live in Det. rewrite Hcl in Det.
-        assert (L : s_now s <? cl_exp cl = true) by (apply N.ltb_lt; lia). rewrite L in Det.
-        injection Det as <- _. lia.
-      * destruct (iter_reads c (s_now s) (length (s_db s)) (s_mk s) st jis (s_ic s) keys) as [ic' res] eqn:R.
-        simpl in Hin. apply iter_reads_cases in R as [_ [R2 _]].
-        apply res_src_in in Hin as [h Hin]. apply R2 in Hin as [->|[Ion' _]]; [|congruence].
-        pose proof (i1_done c s I1). lia.
-    + destruct (iter_reads c (s_now s) (length (s_db s)) (s_mk s) st jis (s_ic s) keys) as [ic' res] eqn:R.
-      simpl in Hin. apply iter_reads_cases in R as [_ [R2 _]].
-      apply res_src_in in Hin as [h Hin]. apply R2 in Hin as [->|[Ion' _]]; [|congruence].
-      pose proof (i1_done c s I1). lia.
-  - destruct (iter_reads c (s_now s) (length (s_db s)) (s_mk s) st jis (s_ic s) keys) as [ic' res] eqn:R.
-    simpl in Hin. apply iter_reads_cases in R as [_ [R2 _]].
-    apply res_src_in in Hin as [h Hin]. apply R2 in Hin as [->|[_ [e [[G [L V]] ->]]]].
-    + pose proof (i1_done c s I1). lia.
-    + destruct (i1_Ic c s I1 i ch k e Hi Hn G Ht Hge L) as [m [me [A [B [C D]]]]].
-      rewrite (invalid_at_marker (s_mk s) (s_now s) (ie_lm e) k m me A B) in V; [discriminate | lia | exact C].
+    destruct T as [T|T]; [|rewrite (cf_subinv c F) in T; discriminate].
+    apply (usable_q_covers c s id e k n i ch I1 Ion G L); try assumption. rewrite Det. exact T.
 Qed.
 
 Lemma staleness_ghost c h :
-  cfg_ok c = true ->
+  cfg_ok c = true -> hist_ok c h init_state = true ->
   let s := run_ops c h init_state in
   forall i, (i < s_done s)%nat ->
-  forall keys st jq jis, fresh_at (s_db s) i (out_src (snd (step c s (Request keys st jq jis)))).
+  forall f st jq jis, fresh_at (s_db s) i (out_src (snd (step c s (Request f st jq jis)))).
 Proof.
-  intros Ok s i Hi keys st jq jis. apply cfg_ok_facts in Ok.
-  destruct (inv_run c h Ok init_state (inv0_init c) (inv1_init c)) as [_ I1].
+  intros Ok Hh s i Hi f st jq jis. apply cfg_ok_facts in Ok.
+  destruct (inv_run c h Ok init_state (inv0_init c) (inv1_init c) Hh) as [_ I1].
   apply answer_fresh; assumption.
 Qed.
 
@@ -1029,30 +1173,25 @@ Proof.
   destruct (drop_old c (s_now s) (rev (newest :: page'))); cbn [fst s_db s_done s_run]; repeat split.
 Qed.
 
-Lemma request_fields c s keys st jq jis :
-  let s' := fst (step c s (Request keys st jq jis)) in
+Lemma request_fields c s f st jq jis :
+  let s' := fst (step c s (Request f st jq jis)) in
   s_db s' = s_db s /\ s_done s' = s_done s /\
   (s_run s' = s_run s \/ (s_run s = None /\ exists x, s_run s' = Some (RPending x))).
 Proof.
   simpl. destruct (determine c s) as [tinv trig].
   assert (X : let s1 := fst (if trig then spawn s else (s, false)) in
-              s_db s1 = s_db s /\ s_done s1 = s_done s /\
               (s_run s1 = s_run s \/ (s_run s = None /\ exists x, s_run s1 = Some (RPending x)))).
-  { destruct trig; simpl; [|repeat split; left; reflexivity].
-    destruct (spawn_same s) as [_ [B [_ [_ [_ [_ D]]]]]]. repeat split; try assumption. apply spawn_run_cases. }
-  destruct (if trig then spawn s else (s, false)) as [s1 spawned]. simpl in X.
-  match goal with |- context [match ?h with Some _ => _ | None => _ end] => destruct h as [e|] end.
-  - simpl. exact X.
-  - destruct (iter_reads c (s_now s) (length (s_db s)) (s_mk s) st jis (s_ic s) keys) as [ic' res]. simpl.
-    destruct X as [_ [_ X]]. repeat split. exact X.
+  { destruct trig; simpl; [apply spawn_run_cases | left; reflexivity]. }
+  destruct (if trig then spawn s else (s, false)) as [s1 spawned]. simpl in X. cbn [fst s_db s_done s_run].
+  repeat split. exact X.
 Qed.
 
 Lemma step_db_done c s o :
   (exists rest, s_db (fst (step c s o)) = s_db s ++ rest) /\ (s_done s <= s_done (fst (step c s o)))%nat.
 Proof.
-  destruct o as [ws|keys st jq jis| | | |d].
+  destruct o as [ws|f st jq jis| | | |d].
   - simpl. split; [eexists; reflexivity | lia].
-  - destruct (request_fields c s keys st jq jis) as [A [B _]]. rewrite A, B.
+  - destruct (request_fields c s f st jq jis) as [A [B _]]. rewrite A, B.
     split; [exists []; rewrite app_nil_r; reflexivity | lia].
   - simpl. destruct (spawn s) as [s1 b] eqn:E. simpl.
     destruct (spawn_same s) as [_ [B [_ [_ [_ [_ D]]]]]]. rewrite E in B, D. simpl in B, D. rewrite B, D.
@@ -1078,9 +1217,9 @@ Lemma step_keeps_read c s o r :
   s_run s = Some (RRead r) -> (match o with InvFinish => false | _ => true end) = true ->
   s_run (fst (step c s o)) = Some (RRead r).
 Proof.
-  intros R Ho. destruct o as [ws|keys st jq jis| | | |d]; try discriminate.
+  intros R Ho. destruct o as [ws|f st jq jis| | | |d]; try discriminate.
   - simpl. exact R.
-  - destruct (request_fields c s keys st jq jis) as [_ [_ [A|[A _]]]]; [rewrite A; exact R | congruence].
+  - destruct (request_fields c s f st jq jis) as [_ [_ [A|[A _]]]]; [rewrite A; exact R | congruence].
   - simpl. destruct (spawn s) as [s1 b] eqn:E. simpl.
     destruct (spawn_run_cases s) as [A|[A _]]; [rewrite E in A; simpl in A; rewrite A; exact R | congruence].
   - simpl. rewrite R. simpl. exact R.
@@ -1098,6 +1237,7 @@ Qed.
 Lemma staleness_bounded_lemma :
   forall (c : cfg) (h1 : list op) (ws : list tup) (h2 h3 h4 : list op),
   cfg_ok c = true ->
+  hist_ok c (h1 ++ [Write ws] ++ h2 ++ [InvRead] ++ h3 ++ [InvFinish] ++ h4) init_state = true ->
   let sW := run_ops c (h1 ++ [Write ws]) init_state in
   let sA := run_ops c (h1 ++ [Write ws] ++ h2) init_state in
   (exists x, s_run sA = Some (RPending x)) ->
@@ -1105,9 +1245,9 @@ Lemma staleness_bounded_lemma :
   let s := run_ops c (h1 ++ [Write ws] ++ h2 ++ [InvRead] ++ h3 ++ [InvFinish] ++ h4) init_state in
   firstn (length (s_db sW)) (s_db s) = s_db sW /\
   forall i, (i < length (s_db sW))%nat ->
-  forall keys st jq jis, fresh_at (s_db s) i (out_src (snd (step c s (Request keys st jq jis)))).
+  forall f st jq jis, fresh_at (s_db s) i (out_src (snd (step c s (Request f st jq jis)))).
 Proof.
-  intros c h1 ws h2 h3 h4 Ok sW sA [x Hpend] Hnf s.
+  intros c h1 ws h2 h3 h4 Ok Hh sW sA [x Hpend] Hnf s.
   assert (EA : sA = run_ops c h2 sW).
   { unfold sA, sW. rewrite app_assoc. apply run_ops_app. }
   assert (ES : s = run_ops c h4 (fst (step c (run_ops c h3 (fst (step c sA InvRead))) InvFinish))).
@@ -1132,103 +1272,51 @@ Proof.
   split.
   - rewrite P5, P4, P3, P2, P1, <- !app_assoc.
     rewrite firstn_app, Nat.sub_diag, firstn_all. simpl. apply app_nil_r.
-  - intros i Hi keys st jq jis. apply staleness_ghost; [exact Ok|].
+  - intros i Hi f st jq jis. apply staleness_ghost; [exact Ok | exact Hh |].
     fold s. assert (length (s_db sW) <= length (s_db sA))%nat by (rewrite P1, app_length; lia). lia.
 Qed.
 
 (* ------------------------------------------------------------------------------------------ *)
 (* Invalidation only forces recomputation                                                      *)
 
-Lemma invalid_at_mono mk mk' now ts k :
-  mk_le mk mk' -> invalid_at mk now ts k = true -> invalid_at mk' now ts k = true.
-Proof.
-  intros Hle H. unfold invalid_at in *. apply existsb_exists in H as [m [Hin H]].
-  destruct (aget mkey_eqb m mk) as [e|] eqn:G; [|discriminate].
-  apply andb_true_iff in H as [H1 H2]. apply N.ltb_lt in H1. apply N.ltb_lt in H2.
-  destruct (Hle m e G) as [e' [G' [A B]]]. apply existsb_exists. exists m. split; [exact Hin|].
-  unfold mget in G'. rewrite G'. apply andb_true_iff. split; apply N.ltb_lt; lia.
-Qed.
-
 Lemma inv_monotone_safe_lemma :
   forall (c : cfg) (s s' : state), more_invalid c s s' ->
-  forall keys st jq jis k n,
-  In (k, n) (out_src (snd (step c s' (Request keys st jq jis)))) ->
+  forall f st jq jis k n,
+  In (k, n) (out_src (snd (step c s' (Request f st jq jis)))) ->
   n = length (s_db s) \/
-  (exists e, i_usable s k e /\ ie_snap e = n) \/
-  (exists e, q_usable c s keys e /\ In (k, n) (qe_src e)).
+  (c_ion c = true /\ exists e, i_usable s k e /\ ie_snap e = n) \/
+  (exists id e, q_usable c s id e /\ In (k, n) (qe_src e)).
 Proof.
-  intros c s s' [Hnow [Hdb [Hic [Hqc [Hmk Ht]]]]] keys st jq jis k n Hin. simpl in Hin.
+  intros c s s' [Hnow [Hdb [Hic [Hqc [Hmk Ht]]]]] f st jq jis k n Hin. simpl in Hin.
   unfold inval_time in Ht.
   destruct (determine c s') as [tinv trig] eqn:Det. simpl in Ht.
   destruct (if trig then spawn s' else (s', false)) as [s1 spawned].
-  assert (Hreads : forall ic' res, iter_reads c (s_now s') (length (s_db s')) (s_mk s') st jis (s_ic s') keys = (ic', res) ->
-            In (k, n) (res_src res) -> n = length (s_db s) \/ (exists e, i_usable s k e /\ ie_snap e = n)).
-  { intros ic' res R Hr. apply iter_reads_cases in R as [_ [R2 _]].
-    apply res_src_in in Hr as [h Hr]. apply R2 in Hr as [->|[_ [e [[G [L V]] ->]]]]; [left; congruence|].
-    right. exists e. split; [|reflexivity]. repeat split.
-    - apply Hic. exact G.
-    - rewrite <- Hnow. exact L.
-    - destruct (invalid_at (s_mk s) (s_now s) (ie_lm e) k) eqn:I; [|reflexivity].
-      rewrite <- Hnow in I. rewrite (invalid_at_mono _ _ _ _ _ Hmk I) in V. discriminate. }
-  destruct (c_qon c) eqn:Qon.
-  - destruct (aget qkey_eqb keys (s_qc s')) as [e|] eqn:G.
-    + destruct ((s_now s' <? qe_exp e) && (tinv <? qe_lm e)) eqn:V.
-      * simpl in Hin. right. right. exists e. split; [|exact Hin].
-        apply andb_true_iff in V as [V1 V2]. apply N.ltb_lt in V1. apply N.ltb_lt in V2.
-        repeat split; [apply Hqc; exact G | rewrite <- Hnow; exact V1 | unfold inval_time; lia].
-      * destruct (iter_reads c (s_now s') (length (s_db s')) (s_mk s') st jis (s_ic s') keys) as [ic' res] eqn:R.
-        simpl in Hin. destruct (Hreads ic' res eq_refl Hin) as [X|X]; [left; exact X | right; left; exact X].
-    + destruct (iter_reads c (s_now s') (length (s_db s')) (s_mk s') st jis (s_ic s') keys) as [ic' res] eqn:R.
-      simpl in Hin. destruct (Hreads ic' res eq_refl Hin) as [X|X]; [left; exact X | right; left; exact X].
-  - destruct (iter_reads c (s_now s') (length (s_db s')) (s_mk s') st jis (s_ic s') keys) as [ic' res] eqn:R.
-    simpl in Hin. destruct (Hreads ic' res eq_refl Hin) as [X|X]; [left; exact X | right; left; exact X].
+  destruct (resolve c (s_now s') (length (s_db s')) (s_mk s') st jq jis tinv (s_ic s', s_qc s') f) as [st' out] eqn:R.
+  cbn [fst snd out_src] in Hin.
+  assert (Hst0 : st_ok c (s_now s') (length (s_db s')) jq (s_ic s) (s_qc s) (s_mk s) (fst (determine c s)) false (s_ic s', s_qc s')).
+  { split; intros ? e He; left; [apply Hic | apply Hqc]; exact He. }
+  destruct (resolve_ok c (s_now s') (length (s_db s')) (s_mk s') st jq jis (s_ic s) (s_qc s) (s_mk s) (fst (determine c s))
+              Hmk f false tinv _ _ _ Hst0 (fun X => ltac:(discriminate X)) (or_introl Ht) R) as [_ Hp].
+  destruct (Hp k n Hin) as [[->|[Ion [e [[G [L V]] ->]]]]|[Qon [id [e [G [L [T Hin']]]]]]].
+  - left. congruence.
+  - right. left. split; [exact Ion|]. exists e. split; [|reflexivity].
+    unfold i_usable. rewrite <- Hnow. repeat split; assumption.
+  - right. right. exists id, e. split; [|exact Hin'].
+    unfold q_usable, inval_time. rewrite <- Hnow. repeat split; assumption.
 Qed.
-
-Lemma answer_keys c s keys st jq jis :
-  (forall e, q_usable c s keys e -> map fst (qe_src e) = keys) ->
-  map fst (out_src (snd (step c s (Request keys st jq jis)))) = keys.
-Proof.
-  intro Hq. simpl. destruct (determine c s) as [tinv trig] eqn:Det.
-  destruct (if trig then spawn s else (s, false)) as [s1 spawned].
-  assert (Hreads : forall ic' res, iter_reads c (s_now s) (length (s_db s)) (s_mk s) st jis (s_ic s) keys = (ic', res) ->
-            map fst (res_src res) = keys).
-  { intros ic' res R. apply iter_reads_cases in R as [_ [_ R3]]. unfold res_src. rewrite map_map. exact R3. }
-  destruct (c_qon c).
-  - destruct (aget qkey_eqb keys (s_qc s)) as [e|] eqn:G.
-    + destruct ((s_now s <? qe_exp e) && (tinv <? qe_lm e)) eqn:V.
-      * simpl. apply Hq. apply andb_true_iff in V as [V1 V2]. apply N.ltb_lt in V1. apply N.ltb_lt in V2.
-        unfold q_usable, inval_time. rewrite Det. repeat split; assumption.
-      * destruct (iter_reads c (s_now s) (length (s_db s)) (s_mk s) st jis (s_ic s) keys) as [ic' res] eqn:R.
-        simpl. apply (Hreads ic' res eq_refl).
-    + destruct (iter_reads c (s_now s) (length (s_db s)) (s_mk s) st jis (s_ic s) keys) as [ic' res] eqn:R.
-      simpl. apply (Hreads ic' res eq_refl).
-  - destruct (iter_reads c (s_now s) (length (s_db s)) (s_mk s) st jis (s_ic s) keys) as [ic' res] eqn:R.
-    simpl. apply (Hreads ic' res eq_refl).
-Qed.
-
-Lemma more_invalid_q_usable c s s' ks e : more_invalid c s s' -> q_usable c s' ks e -> q_usable c s ks e.
-Proof.
-  intros [Hnow [_ [_ [Hqc [_ Ht]]]]] [A [B C]]. repeat split; [apply Hqc; exact A | rewrite <- Hnow; exact B | lia].
-Qed.
-
-Lemma map_ext_in_ {A B} (f g : A -> B) l : (forall a, In a l -> f a = g a) -> map f l = map g l.
-Proof. induction l as [|a l IH]; intro H; simpl; [reflexivity|]. rewrite H by (left; reflexivity). rewrite IH; [reflexivity|]. intros; apply H; right; assumption. Qed.
 
 Lemma invalidation_correct_lemma :
   forall (c : cfg) (s s' : state), cache_consistent c s -> more_invalid c s s' ->
-  forall keys st jq jis,
-  answer_views (s_db s') (out_src (snd (step c s' (Request keys st jq jis)))) = uncached_views (s_db s') keys.
+  forall f st jq jis k n,
+  In (k, n) (out_src (snd (step c s' (Request f st jq jis)))) ->
+  view (s_db s') k n = view (s_db s') k (length (s_db s')).
 Proof.
-  intros c s s' [Ci Cq] M keys st jq jis.
+  intros c s s' [Ci Cq] M f st jq jis k n Hin.
   assert (Hdb : s_db s' = s_db s) by (destruct M as [_ [X _]]; exact X).
-  assert (Hk : map fst (out_src (snd (step c s' (Request keys st jq jis)))) = keys).
-  { apply answer_keys. intros e U. apply (more_invalid_q_usable c s s' keys e M) in U. apply (Cq keys e U). }
-  unfold answer_views, uncached_views. rewrite <- Hk at 2. rewrite map_map.
-  apply map_ext_in_. intros [k n] Hin. simpl.
-  destruct (inv_monotone_safe_lemma c s s' M keys st jq jis k n Hin) as [->|[[e [U <-]]|[e [U Hs]]]]; rewrite Hdb.
+  destruct (inv_monotone_safe_lemma c s s' M f st jq jis k n Hin) as [->|[[_ [e [U <-]]]|[id [e [U Hs]]]]]; rewrite Hdb.
   - reflexivity.
   - apply Ci; exact U.
-  - apply (proj2 (Cq keys e U)); exact Hs.
+  - apply (Cq id e U); exact Hs.
 Qed.
 
 Lemma more_invalid_refl c s : more_invalid c s s.
@@ -1308,11 +1396,12 @@ Lemma invalidation_never_wrong_lemma :
   let s := run_ops c h init_state in
   cache_consistent c s ->
   let s' := fst (step c s o) in
-  forall keys st jq jis,
-  answer_views (s_db s') (out_src (snd (step c s' (Request keys st jq jis)))) = uncached_views (s_db s') keys.
+  forall f st jq jis k n,
+  In (k, n) (out_src (snd (step c s' (Request f st jq jis)))) ->
+  view (s_db s') k n = view (s_db s') k (length (s_db s')).
 Proof.
-  intros c h o Q Ho s Cons s' keys st jq jis.
-  apply (invalidation_correct_lemma c s s' Cons).
+  intros c h o Q Ho s Cons s' f st jq jis k n Hin.
+  apply (invalidation_correct_lemma c s s' Cons) with (f := f) (st := st) (jq := jq) (jis := jis); [|exact Hin].
   apply controller_only_invalidates_lemma; assumption.
 Qed.
 
@@ -1322,66 +1411,106 @@ Qed.
 Definition w_k1 : ikey := KOR 1 1 1 1.
 Definition w_k2 : ikey := KOR 1 1 2 1.
 Definition w_t (u : N) : tup := mkTup u 1 1 1 false.
+(* requests: [w_q1] reads k1, [w_q12] reads k1 and k2; [w_p1] and [w_p2] are two different parents
+   of the same sub-problem 9, which reads k1 *)
+Definition w_q1 : qforest := qleaf 1 [w_k1].
+Definition w_q12 : qforest := qleaf 2 [w_k1; w_k2].
+Definition w_p1 : qforest := QCons 11 [] (qleaf 9 [w_k1]) QNil.
+Definition w_p2 : qforest := QCons 12 [] (qleaf 9 [w_k1]) QNil.
 
 (* both caches on (docs/caching.md, "Stale Query Cache Entry via Stale Iterator Cache") *)
-Definition w_cfg_both : cfg := mkCfg true true 300 300 100 1000000 50 0 1.
+Definition w_cfg_both : cfg := mkCfg true true 300 300 100 1000000 50 0 1 true.
 (* one cache, 100% jitter *)
-Definition w_cfg_jit_i : cfg := mkCfg false true 300 300 100 1000000 50 100 1.
-Definition w_cfg_jit_q : cfg := mkCfg true false 300 300 100 1000000 50 100 1.
+Definition w_cfg_jit_i : cfg := mkCfg false true 300 300 100 1000000 50 100 1 true.
+Definition w_cfg_jit_q : cfg := mkCfg true false 300 300 100 1000000 50 100 1 true.
 (* one cache, no jitter, but a clock so coarse that a write gets the timestamp of the read before it *)
-Definition w_cfg_coarse : cfg := mkCfg false true 300 300 100 1000000 50 0 0.
+Definition w_cfg_coarse : cfg := mkCfg false true 300 300 100 1000000 50 0 0 true.
+(* query cache only, everything as coded *)
+Definition w_cfg_q : cfg := mkCfg true false 300 300 100 1000000 50 0 1 true.
+(* query cache only, but dispatched sub-problems do not get LastCacheInvalidationTime *)
+Definition w_cfg_nosub : cfg := mkCfg true false 300 300 100 1000000 50 0 1 false.
 
-Definition refutes (c : cfg) (h1 : list op) (ws : list tup) (h2 h3 h4 : list op) (i : nat) (keys : list ikey) : Prop :=
+Definition w_hist (h1 : list op) (ws : list tup) (h2 h3 h4 : list op) : list op :=
+  h1 ++ [Write ws] ++ h2 ++ [InvRead] ++ h3 ++ [InvFinish] ++ h4.
+
+Definition refutes (c : cfg) (h1 : list op) (ws : list tup) (h2 h3 h4 : list op) (i : nat) (f : qforest) : Prop :=
   (exists x, s_run (run_ops c (h1 ++ [Write ws] ++ h2) init_state) = Some (RPending x)) /\
   no_finish h3 = true /\
   (i < length (s_db (run_ops c (h1 ++ [Write ws]) init_state)))%nat /\
-  let s := run_ops c (h1 ++ [Write ws] ++ h2 ++ [InvRead] ++ h3 ++ [InvFinish] ++ h4) init_state in
-  ~ fresh_at (s_db s) i (out_src (snd (step c s (Request keys true 0 [])))).
+  let s := run_ops c (w_hist h1 ws h2 h3 h4) init_state in
+  ~ fresh_at (s_db s) i (out_src (snd (step c s (Request f true 0 [])))).
 
 Ltac refute :=
-  unfold refutes; split; [eexists; vm_compute; reflexivity|];
+  unfold refutes, w_hist; split; [eexists; vm_compute; reflexivity|];
   split; [vm_compute; reflexivity|]; split; [vm_compute; lia|];
   cbv zeta; let H := fresh "H" in (intro H; apply fresh_atb_spec in H; vm_compute in H; discriminate).
 
 Lemma both_caches_refuted_lemma :
-  exists c h1 ws h2 h3 h4 i keys,
-    c_qon c = true /\ c_ion c = true /\ c_jit c = 0 /\ cfg_rest c = true /\ refutes c h1 ws h2 h3 h4 i keys.
+  exists c h1 ws h2 h3 h4 i f,
+    c_qon c = true /\ c_ion c = true /\ c_jit c = 0 /\ cfg_rest c = true /\ c_subinv c = true /\
+    hist_ok c (w_hist h1 ws h2 h3 h4) init_state = true /\ refutes c h1 ws h2 h3 h4 i f.
 Proof.
-  exists w_cfg_both, [Write [w_t 1]; Tick 1; Request [w_k1] true 0 []; Tick 1], [w_t 2],
-         [Tick 1; Request [w_k1; w_k2] true 0 []; Tick 1; InvStart], [], [Tick 1], 1%nat, [w_k1; w_k2].
-  do 4 (split; [reflexivity|]). refute.
+  exists w_cfg_both, [Write [w_t 1]; Tick 1; Request w_q1 true 0 []; Tick 1], [w_t 2],
+         [Tick 1; Request w_q12 true 0 []; Tick 1; InvStart], [], [Tick 1], 1%nat, w_q12.
+  do 5 (split; [reflexivity|]). split; [vm_compute; reflexivity|]. refute.
 Qed.
 
 Lemma staleness_jitter_iter_refuted_lemma :
-  exists c h1 ws h2 h3 h4 i keys,
-    c_qon c = false /\ c_ion c = true /\ c_jit c = 100 /\ cfg_rest c = true /\ refutes c h1 ws h2 h3 h4 i keys.
+  exists c h1 ws h2 h3 h4 i f,
+    c_qon c = false /\ c_ion c = true /\ c_jit c = 100 /\ cfg_rest c = true /\ c_subinv c = true /\
+    hist_ok c (w_hist h1 ws h2 h3 h4) init_state = true /\ refutes c h1 ws h2 h3 h4 i f.
 Proof.
-  exists w_cfg_jit_i, [Write [w_t 1]; Tick 1; Request [w_k1] true 0 [300]; Tick 1], [w_t 2],
-         [Tick 310; InvStart], [], [Tick 1], 1%nat, [w_k1].
-  do 4 (split; [reflexivity|]). refute.
+  exists w_cfg_jit_i, [Write [w_t 1]; Tick 1; Request w_q1 true 0 [300]; Tick 1], [w_t 2],
+         [Tick 310; InvStart], [], [Tick 1], 1%nat, w_q1.
+  do 5 (split; [reflexivity|]). split; [vm_compute; reflexivity|]. refute.
 Qed.
 
 Lemma staleness_jitter_query_refuted_lemma :
-  exists c h1 ws h2 h3 h4 i keys,
-    c_qon c = true /\ c_ion c = false /\ c_jit c = 100 /\ cfg_rest c = true /\ refutes c h1 ws h2 h3 h4 i keys.
+  exists c h1 ws h2 h3 h4 i f,
+    c_qon c = true /\ c_ion c = false /\ c_jit c = 100 /\ cfg_rest c = true /\ c_subinv c = true /\
+    hist_ok c (w_hist h1 ws h2 h3 h4) init_state = true /\ refutes c h1 ws h2 h3 h4 i f.
 Proof.
-  exists w_cfg_jit_q, [Write [w_t 1]; Tick 1; Request [w_k1] true 300 []; Tick 1], [w_t 2],
-         [Tick 1; InvStart], [], [Tick 310], 1%nat, [w_k1].
-  do 4 (split; [reflexivity|]). refute.
+  exists w_cfg_jit_q, [Write [w_t 1]; Tick 1; Request w_q1 true 300 []; Tick 1], [w_t 2],
+         [Tick 1; InvStart], [], [Tick 310], 1%nat, w_q1.
+  do 5 (split; [reflexivity|]). split; [vm_compute; reflexivity|]. refute.
 Qed.
 
 Lemma staleness_coarse_clock_refuted_lemma :
-  exists c h1 ws h2 h3 h4 i keys,
+  exists c h1 ws h2 h3 h4 i f,
     c_wtick c = 0 /\
-    cfg_ok (mkCfg (c_qon c) (c_ion c) (c_qttl c) (c_ittl c) (c_interval c) (c_full c) (c_page c) (c_jit c) 1) = true /\
-    refutes c h1 ws h2 h3 h4 i keys.
+    cfg_ok (mkCfg (c_qon c) (c_ion c) (c_qttl c) (c_ittl c) (c_interval c) (c_full c) (c_page c) (c_jit c) 1 (c_subinv c)) = true /\
+    hist_ok c (w_hist h1 ws h2 h3 h4) init_state = true /\ refutes c h1 ws h2 h3 h4 i f.
 Proof.
-  exists w_cfg_coarse, [Tick 5; Write [w_t 1]; Request [w_k1] true 0 []], [w_t 2], [], [], [Tick 1], 1%nat, [w_k1].
-  do 2 (split; [reflexivity|]). refute.
+  exists w_cfg_coarse, [Tick 5; Write [w_t 1]; Request w_q1 true 0 []], [w_t 2], [], [], [Tick 1], 1%nat, w_q1.
+  do 2 (split; [reflexivity|]). split; [vm_compute; reflexivity|]. refute.
+Qed.
+
+(* As coded, query cache only, no jitter: a request that dispatches a sub-problem between the write
+   and the run re-stamps the stale content of the sub-problem's entry (hist_ok is the ONLY hypothesis
+   of staleness_bounded that fails) *)
+Lemma subproblem_restamp_refuted_lemma :
+  exists c h1 ws h2 h3 h4 i f,
+    cfg_ok c = true /\ hist_ok c (w_hist h1 ws h2 h3 h4) init_state = false /\ refutes c h1 ws h2 h3 h4 i f.
+Proof.
+  exists w_cfg_q, [Write [w_t 1]; Tick 1; InvStart; InvRead; InvFinish; Tick 1; Request w_p1 true 0 []; Tick 1], [w_t 2],
+         [Tick 1; Request w_p2 true 0 []; Tick 1; InvStart], [], [Tick 1], 1%nat, w_p2.
+  split; [reflexivity|]. split; [vm_compute; reflexivity|]. refute.
+Qed.
+
+(* If clone() did not hand LastCacheInvalidationTime to the dispatched sub-problems (c_subinv = false,
+   everything else as in cfg_ok, history admissible): the parent is recomputed from the child's entry *)
+Lemma subproblem_time_dropped_refuted_lemma :
+  exists c h1 ws h2 h3 h4 i f,
+    c_subinv c = false /\
+    cfg_ok (mkCfg (c_qon c) (c_ion c) (c_qttl c) (c_ittl c) (c_interval c) (c_full c) (c_page c) (c_jit c) (c_wtick c) true) = true /\
+    hist_ok c (w_hist h1 ws h2 h3 h4) init_state = true /\ refutes c h1 ws h2 h3 h4 i f.
+Proof.
+  exists w_cfg_nosub, [Write [w_t 1]; Tick 1; InvStart; InvRead; InvFinish; Tick 1; Request w_p1 true 0 []; Tick 1], [w_t 2],
+         [Tick 1; InvStart], [], [Tick 1], 1%nat, w_p1.
+  do 2 (split; [reflexivity|]). split; [vm_compute; reflexivity|]. refute.
 Qed.
 
 (* constants of the non-vacuity examples in Props/C11.v *)
-Definition x_cfg_i : cfg := mkCfg false true 300 300 100 1000000 50 0 1.
-Definition x_cfg_q : cfg := mkCfg true false 300 300 100 1000000 50 0 1.
+Definition x_cfg_i : cfg := mkCfg false true 300 300 100 1000000 50 0 1 true.
+Definition x_cfg_q : cfg := mkCfg true false 300 300 100 1000000 50 0 1 true.
 Definition x_other (n : nat) : op := Write [mkTup (N.of_nat n) 1 9 1 false].
-
